@@ -47,13 +47,16 @@ T2Rows == <<[a |-> 0, c |-> 1], [a |-> 1, c |-> 0], [a |-> 1, c |-> 1]>>
 LeafT2 == Leaf("T2", "sql", {"a", "c"}, 0, -1)
 \* the fixed operand of the final join: the bare SQL leaf, or its deduplication projected to {a}
 \* (a "deduplicated" relation that does have duplicate rows)
-FixedTree(n) == IF n = "T2" THEN PlainSel(LeafT2)
-                ELSE ApplyUnary(Proj({"a"}), ApplyUnary(Dedup, PlainSel(LeafT2), DefaultOpts), DefaultOpts)
-FixedRows(n) == IF n = "T2" THEN T2Rows ELSE ApplyOp(Proj({"a"}), ApplyOp(Dedup, T2Rows))
-FixedCols(n) == IF n = "T2" THEN {"a", "c"} ELSE {"a"}
+\* ... or the SQL engine's own join-identity relation (no columns, one row)
+LeafI == Leaf("I", "sql", {}, 1, 1)
+FixedTree(n) == CASE n = "T2" -> PlainSel(LeafT2)
+                  [] n = "I" -> PlainSel(LeafI)
+                  [] OTHER -> ApplyUnary(Proj({"a"}), ApplyUnary(Dedup, PlainSel(LeafT2), DefaultOpts), DefaultOpts)
+FixedRows(n) == CASE n = "T2" -> T2Rows [] n = "I" -> << <<>> >> [] OTHER -> ApplyOp(Proj({"a"}), ApplyOp(Dedup, T2Rows))
+FixedCols(n) == CASE n = "T2" -> {"a", "c"} [] n = "I" -> {} [] OTHER -> {"a"}
 LeafL(e, rows) == Leaf("L", e, {"a", "b"}, Len(rows), Len(rows))
 Engines == {"sql", "it1", "it2"}
-Env == [L |-> l1, T2 |-> T2Rows]
+Env == [L |-> l1, T2 |-> T2Rows, I |-> << <<>> >>]
 
 TotalAB == <<Term(A, TRUE), Term(B, FALSE)>>
 
@@ -116,6 +119,7 @@ FinalCalls(r) ==
               p \in {q \in {PLit(TRUE), Cmp("le", A, CC), Cmp("le", D, CC)} : ReqP(q) \subseteq Cols(r) \cup {"a", "c"}},
               bt \in BOOLEAN, tr \in BOOLEAN}
       \cup {[f |-> "join", fixed |-> "T2pd", p |-> PLit(TRUE), backtrack |-> bt, transfer |-> tr] : bt \in BOOLEAN, tr \in BOOLEAN}
+      \cup {[f |-> jf, fixed |-> "I", p |-> PLit(TRUE), backtrack |-> bt, transfer |-> tr] : jf \in {"join", "pjoinl"}, bt \in BOOLEAN, tr \in BOOLEAN}
 
 \* Starts \subseteq {"none", "calc", "xmat"}: pre-seeded histories that do not
 \* count against the depth bound - "calc": a calculated column d at the source
@@ -197,9 +201,13 @@ SpineDedupCols(t) ==
 KF2Signature == SpineDedupCols(rel) # SpineDedupCols(prev)
 KF2 == KF2Matcher /\ KF2Signature
 
+\* a join has no row order of its own (only the SQL engine evaluates joins, and the reference lists rows
+\* lhs-major only by convention): after a final join only the multiset is promised
+LastIsJoin == final /\ hist # <<>> /\ hist[Len(hist)].f \in {"join", "pjoinl"}
+ListPromised == LDet /\ ~LastIsJoin
 ContentKept ==
     \/ KF2
-    \/ /\ LDet => Den(rel, Env) = ref
+    \/ /\ ListPromised => Den(rel, Env) = ref
        /\ BDet => SameBag(Den(rel, Env), ref) /\ (src = "sql" => SameBag(Den(rel, Rev), ref))
 
 \* companion (expected to FAIL): the excluded class still violates
@@ -294,7 +302,7 @@ ProcessedBaseSound ==
         /\ ~IsErr(PRes)
         /\ WellFormed(PRes)
         /\ Cols(PRes) = Cols(rel) /\ Eng(PRes) = Eng(rel)
-        /\ (ListDet(PRes, Env) /\ ListDet(PRes, Rev)) => Den(PRes, Env) = ref
+        /\ (ListDet(PRes, Env) /\ ListDet(PRes, Rev) /\ ~LastIsJoin) => Den(PRes, Env) = ref
         /\ (BagDet(PRes, Env) /\ BagDet(PRes, Rev)) => SameBag(Den(PRes, Env), ref) /\ (src = "sql" => SameBag(Den(PRes, Rev), ref))
         /\ \A n \in PaidNodes(PRes, PBase.paid) : n \in Nodes(PBase.t)
         /\ \A n \in Nodes(PRes) : NodeTruthful(n, Env)
@@ -334,7 +342,7 @@ EmitState ==
     Emit =>
       PrintT(<<"ST", ToJson([
             src |-> src, l1 |-> l1, t2 |-> T2Rows, hist |-> hist, tree |-> rel, rows |-> ref,
-            ldet |-> LDet, bdet |-> BDet,
+            ldet |-> ListPromised, bdet |-> BDet,
             meta |-> [cols |-> Cols(rel), min |-> MinR(rel), max |-> MaxR(rel), eng |-> Eng(rel),
                       trivial |-> Trivial(rel), jid |-> JoinIdentity(rel)],
             mats |-> {n.name : n \in MatNodes(rel)},
